@@ -107,9 +107,15 @@ type bodyRec struct {
 	lastAt   time.Time
 }
 
+type errReader struct{}
+
+func (errReader) Read([]byte) (int, error) { return 0, io.ErrUnexpectedEOF }
+
+func good(outcome string) bool { return outcome == "ok" || outcome == "slow" || outcome == "okbad" }
+
 func (b *bodyRec) succeeded() bool {
 	for _, a := range b.Attempts {
-		if a.Outcome == "ok" || a.Outcome == "slow" {
+		if good(a.Outcome) {
 			return true
 		}
 	}
@@ -254,6 +260,11 @@ func (u *upstream) RoundTrip(req *http.Request) (*http.Response, error) {
 		}
 		time.Sleep(2 * time.Millisecond) // latency, not synchronisation
 		res = resp(202, req)
+	case "okbad":
+		// the upstream accepted the batch (2xx) but the response body cannot be read to its end
+		res = resp(202, req)
+		res.Body = io.NopCloser(io.MultiReader(strings.NewReader("accepted"), errReader{}))
+		res.ContentLength = 64
 	case "500":
 		res = resp(500, req)
 	case "400":
@@ -324,7 +335,8 @@ func buildMap(lx *statsd.VerifLexer, rng *rand.Rand, cfg config, client int, idc
 		}
 		if rng.Intn(2) == 0 {
 			// "tenantx:9" / "tenant" share a prefix with the dynamic header name but must not select a header
-			tags = append(tags, []string{"env:prod", "zone:x", "plain", "tenantx:9", "tenant"}[rng.Intn(5)])
+			// none of these may select a header: only a tag whose name is exactly "tenant" does
+			tags = append(tags, []string{"env:prod", "zone:x", "plain", "tenantx:9", "tenant", "subtenant:q", "x:tenant:y", "mytenant:z:1"}[rng.Intn(8)])
 		}
 		var line string
 		s := rng.Intn(3)
@@ -501,15 +513,18 @@ type flushRec struct{ begin, done int64 }
 func randomScript(cfg config) func(b *bodyRec, rng *rand.Rand) []string {
 	return func(b *bodyRec, rng *rand.Rand) []string {
 		if cfg.Faults == "none" {
-			if rng.Intn(5) == 0 {
+			switch rng.Intn(8) {
+			case 0:
 				return []string{"slow"}
+			case 1:
+				return []string{"okbad"}
 			}
 			return []string{"ok"}
 		}
 		if cfg.WindowMS < 0 { // retries disabled: a failing first attempt is final
 			return [][]string{{"ok"}, {"ok"}, {"500"}, {"conn"}, {"slow"}, {"400"}}[rng.Intn(6)]
 		}
-		return [][]string{{"ok"}, {"ok"}, {"slow"}, {"500", "ok"}, {"conn", "ok"}, {"400", "slow"}, {"500", "conn", "ok"}}[rng.Intn(7)]
+		return [][]string{{"ok"}, {"okbad"}, {"slow"}, {"500", "ok"}, {"conn", "okbad"}, {"400", "slow"}, {"500", "conn", "ok"}}[rng.Intn(7)]
 	}
 }
 
@@ -661,7 +676,7 @@ func finish(r *mon.Run, w *world, cfg config, recs [][]*dispatchRec, flushes []f
 		created++
 		ok := false
 		for i, a := range b.Attempts {
-			good := a.Outcome == "ok" || a.Outcome == "slow"
+			good := good(a.Outcome)
 			if ok {
 				viol("resent-after-success", fmt.Sprintf("body %s attempted again (attempt %d) after a 2xx", b.Hash, i+1))
 			}
@@ -687,7 +702,7 @@ func finish(r *mon.Run, w *world, cfg config, recs [][]*dispatchRec, flushes []f
 			if cfg.WindowMS >= 0 {
 				elapsedUpper := b.lastAt.Sub(b.firstAt) + 2*time.Second
 				_ = elapsedUpper
-				if len(b.Script) > len(b.Attempts) || (b.Script[len(b.Script)-1] == "ok" || b.Script[len(b.Script)-1] == "slow") {
+				if len(b.Script) > len(b.Attempts) || good(b.Script[len(b.Script)-1]) {
 					viol("abandoned-early", fmt.Sprintf("body %s abandoned after attempts %v although its script %v ends in success and the window is %dms", b.Hash, outcomes(b), b.Script, cfg.WindowMS))
 				}
 			} else if len(b.Attempts) != 1 {
@@ -842,7 +857,7 @@ var failures = []string{"500", "400", "conn"}
 
 // allScripts enumerates every outcome script with up to maxFail failures followed by a success.
 func allScripts(maxFail int) [][]string {
-	out := [][]string{{"ok"}, {"slow"}}
+	out := [][]string{{"ok"}, {"slow"}, {"okbad"}, {"500", "okbad"}}
 	var rec func(prefix []string)
 	rec = func(prefix []string) {
 		if len(prefix) > 0 {
@@ -978,7 +993,7 @@ func runScripted(r *mon.Run, sc scriptedCase) {
 			delivered := false
 			for i, o := range b.Script {
 				wantAttempts = i + 1
-				if o == "ok" || o == "slow" {
+				if good(o) {
 					delivered = true
 					break
 				}
@@ -1149,7 +1164,7 @@ func TestCheck(t *testing.T) {
 	// (2) scripted runs: the list of cases is the same in every shard; each shard runs its share
 	scripts := allScripts(2)
 	if !r.Thorough() {
-		scripts = [][]string{{"ok"}, {"500", "ok"}, {"conn", "slow"}, {"400", "500", "ok"}, {"conn", "conn", "ok"}}
+		scripts = [][]string{{"ok"}, {"500", "ok"}, {"conn", "slow"}, {"400", "500", "ok"}, {"conn", "conn", "ok"}, {"okbad"}}
 	}
 	var cases []scriptedCase
 	add := func(dyn bool, window int, scs [][]string, hold bool) {
